@@ -196,7 +196,7 @@ pub fn run(run: Run) -> ! {
     merge(&mut acc, all_pairs(&u64s, &xs, 8 << 56));
     merge(&mut acc, all_pairs(&usizes, &xs, 9 << 56));
     // floats
-    let f32s: Vec<f32> = vec![0.0, -0.0, 1.0, -1.0, 0.1, -0.1, 0.3, 0.5, 2.5, 100.0, -64.0, 1e-10, 2.5e-10, 1.25e5, 6.77e5, 1e20, -1e20, f32::MIN_POSITIVE, f32::from_bits(1), f32::from_bits(0x0000_ffff), f32::MAX / 4.0, -f32::MAX / 4.0, 16777216.0, 16777215.0];
+    let f32s: Vec<f32> = vec![0.0, -0.0, 1.0, -1.0, 0.1, -0.1, 0.3, 0.5, 2.5, 100.0, -64.0, 1e-10, 2.5e-10, 1.25e5, 6.77e5, 1e20, -1e20, f32::MIN_POSITIVE, f32::from_bits(1), f32::from_bits(0x0000_ffff), f32::MAX / 4.0, -f32::MAX / 4.0, 16777216.0, 16777215.0, f32::MAX, -f32::MAX, 3.0e38, -3.0e38];
     let f64s: Vec<f64> = f32s.iter().map(|&x| x as f64).collect();
     merge(&mut acc, all_pairs(&f32s, &xs, 10 << 56));
     merge(&mut acc, all_pairs(&f64s, &xs, 11 << 56));
@@ -250,7 +250,7 @@ pub fn run(run: Run) -> ! {
     cov.insert("traces_validated_against_impl".into(), json!(acc.evals));
     cov.insert("evaluations".into(), json!(acc.evals));
     cov.insert("distinct_nontrivial".into(), json!(acc.nontrivial_pairs));
-    cov.insert("rule".into(), json!(format!("u8,i8: ALL 65536 (a,b) pairs; u16,i16: boundary values squared; i32,u32,i64,u64,usize: all f32-representable boundary values (0, +-2^j, largest f32 below 2^j, MIN, largest representable below MAX) squared; f32: 24 values squared (signed zeros, subnormals, non-dyadics, 1e20, MAX/4); f64: the same values; x grid: j/{} plus 16 f32 neighbours of 0, 1/2, 1 and 0.1,0.2,0.3,0.7,0.9,1/3; extreme pairs additionally over {} f32 x in [0,1]; glam Vec2/3/3A/4, DVec*, IVec*, UVec*, I64Vec*, U64Vec* component-wise ({} vector evaluations). states = (type,a,b) pairs, transitions = lerp calls; non-trivial = pairs with a != b", if thorough { 4096 } else { 64 }, if thorough { "ALL 1 065 353 217" } else { "every 4096th of the" }, glam_checks)));
+    cov.insert("rule".into(), json!(format!("u8,i8: ALL 65536 (a,b) pairs; u16,i16: boundary values squared; i32,u32,i64,u64,usize: all f32-representable boundary values (0, +-2^j, largest f32 below 2^j, MIN, largest representable below MAX) squared; f32: 28 values squared (signed zeros, subnormals, non-dyadics, 1e20, MAX/4); f64: the same values; x grid: j/{} plus 16 f32 neighbours of 0, 1/2, 1 and 0.1,0.2,0.3,0.7,0.9,1/3; extreme pairs additionally over {} f32 x in [0,1]; glam Vec2/3/3A/4, DVec*, IVec*, UVec*, I64Vec*, U64Vec* component-wise ({} vector evaluations). states = (type,a,b) pairs, transitions = lerp calls; non-trivial = pairs with a != b", if thorough { 4096 } else { 64 }, if thorough { "ALL 1 065 353 217" } else { "every 4096th of the" }, glam_checks)));
     cov.insert("exhaustive".into(), json!(true));
     cov.insert("oracles".into(), json!("x=0 => a and x=1 => b exactly; a=b => a and betweenness exactly when 2 ulp32(|a|) < 1/2 (integers below 2^21), within 2 ulp32 otherwise; monotone in x up to 2 ulp32; |r - (a + x(b-a))| <= 1/2 + 3 ulp32(max|a|,|b|) for integers, <= 3 ulp32 for floats; no panic; finite"));
     cov.insert("samples".into(), json!(acc.samples));
